@@ -1,5 +1,373 @@
 import QModel.Core
-/-! C06 — model (not built yet) -/
+import QModel.C16
+/-!
+# C06 — composition of quantum operations (model of `compose_qoperations` and helpers in
+quara/objects/operators.py, `Povm.generate_mprocess` (mode 2) / `MProcess.to_povm`,
+`truncate_and_normalize`, `StateEnsemble`)
+
+Objects are the real coefficient arrays the library stores (`n = d²`): a state is a `Vec K n`,
+a gate a `Mat K n n`, a POVM a list of vectors (+ `nums_local_outcomes`), a measurement process a list
+of matrices + `shape` + `eps_zero`, an ensemble a list of states + a `MultinomialDistribution`
+(`QM.C16.Dist`, constructor `QM.C16.ctor`) + `eps_zero`.
+
+The model mirrors the code *as it is*: product orders, nested-loop outcome layouts, reported shapes,
+the `eps_zero` truncation / renormalisation of `_compose_qoperations_MProcess_State_for_States`
+(including that post states are divided by the *renormalised* probability), zero-probability post
+states, the zero-distribution branch, `truncate_and_normalize`, the right-to-left fold of a chain.
+
+Not modelled: the physicality verdicts inside the object constructors (C01), `mode_sampling=True`
+(random), `np.sum` pairwise rounding.  `sd` is the float `np.sqrt(dim)` as a rational, `atol` is
+`Settings.get_atol()`.
+-/
 namespace QM.C06
-def handle (_args : List String) : Option String := none
+open QM
+
+/-! ## pure kernels (scalar-polymorphic) -/
+section kernels
+variable {K : Type} {n : Nat}
+
+/-- `vec.conjugate() @ hs` (real arrays: the conjugate is the identity) -/
+def vecMat [Add K] [Mul K] [Zero K] (v : Vec K n) (A : Mat K n n) : Vec K n :=
+  Vec.ofFn fun j => fsum n fun i => v.get i * A.get i j
+
+/-- row `i` of a matrix (`hs[i]`) -/
+def row (A : Mat K n n) (i : Fin n) : Vec K n := Vec.ofFn fun j => A.get i j
+
+/-- `np.dot(np.array([u]).T, np.array([v]))` -/
+def outer [Mul K] (u v : Vec K n) : Mat K n n := Mat.ofFn fun i j => u.get i * v.get j
+
+/-- Povm ∘ Gate: `[v.conjugate() @ hs for v in vecs]` -/
+def povmGate [Add K] [Mul K] [Zero K] (vecs : List (Vec K n)) (hs : Mat K n n) : List (Vec K n) :=
+  vecs.map fun v => vecMat v hs
+
+/-- `_compose_qoperations_Povm_MProcess`: `for hs in hss: for vec in vecs: hs.T @ vec` -/
+def povmMProcess [Add K] [Mul K] [Zero K] (vecs : List (Vec K n)) (hss : List (Mat K n n)) :
+    List (Vec K n) :=
+  hss.flatMap fun hs => vecs.map fun v => hs.transpose.mulVec v
+
+/-- `_compose_qoperations_MProcess_MProcess` as coded:
+`for hs2 in elem2.hss: for hs1 in elem1.hss: hs2 @ hs1` (reported shape `shape1 + shape2`). -/
+def mpMp [Add K] [Mul K] [Zero K] (hss1 hss2 : List (Mat K n n)) : List (Mat K n n) :=
+  hss2.flatMap fun hs2 => hss1.map fun hs1 => hs2.mul hs1
+
+/-- what composition "elem1 after elem2" has to be (used only in theorems / proposed patch):
+`for hs2: for hs1: hs1 @ hs2`, reported shape `shape2 + shape1`. -/
+def mpMpFixed [Add K] [Mul K] [Zero K] (hss1 hss2 : List (Mat K n n)) : List (Mat K n n) :=
+  hss2.flatMap fun hs2 => hss1.map fun hs1 => hs1.mul hs2
+
+/-- `MProcess.to_povm`: `[sqrt(dim) * hs[0] for hs in hss]` -/
+def toPovm [Mul K] [NeZero n] (sd : K) (hss : List (Mat K n n)) : List (Vec K n) :=
+  hss.map fun hs => Vec.smul sd (row hs 0)
+
+/-- `generate_mprocess(mode_backaction=2)` with one post-selected state per outcome (`zip`) -/
+def genMode2List [Mul K] (states vecs : List (Vec K n)) : List (Mat K n n) :=
+  (states.zip vecs).map fun (s, v) => outer s v
+
+/-- `generate_mprocess(mode_backaction=2)` with a single post-selected state -/
+def genMode2 [Mul K] (state : Vec K n) (vecs : List (Vec K n)) : List (Mat K n n) :=
+  vecs.map fun v => outer state v
+
+/-- Born probabilities before truncation: `[np.vdot(v, rho) for v in vecs]` -/
+def bornRaw [Add K] [Mul K] [Zero K] (vecs : List (Vec K n)) (rho : Vec K n) : List K :=
+  vecs.map fun v => Vec.dot v rho
+
+/-- `truncate_and_normalize` (1-d branch): `np.where(m < eps, 0, m) / sum`. `none` = division by a
+zero sum (numpy yields nan and the distribution constructor then rejects it). -/
+def truncNorm [Add K] [Zero K] [Div K] [LT K] [DecidableLT K] [DecidableEq K] (eps : K) (ps : List K) :
+    Option (List K) :=
+  let t := ps.map fun p => if p < eps then 0 else p
+  let s := lsum t
+  if s = 0 then none else some (t.map (· / s))
+
+/-- `Mx_rho / p_x` -/
+def vdiv [Div K] (v : Vec K n) (p : K) : Vec K n := Vec.ofFn fun i => v.get i / p
+
+/-- `_compose_qoperations_MProcess_State_for_States(elem1, elem2, weight)` on the
+orthonormal-Hermitian-0th-identity branch (the only one an MProcess can be constructed on).
+Returns `(states, ps)`. -/
+def forStates [Add K] [Mul K] [Zero K] [Div K] [LE K] [DecidableLE K] [DecidableEq K] [NeZero n]
+    (sd eps : K) (hss : List (Mat K n n)) (rho : Vec K n) (w : K) : List (Vec K n) × List K :=
+  let mx := hss.map fun hs => hs.mulVec rho
+  let raw := mx.map fun r => sd * r.get 0
+  let trunc := raw.any fun p => decide (w * p ≤ eps)
+  let ps0 := raw.map fun p => if w * p ≤ eps then 0 else p
+  let s := lsum ps0
+  let ps1 := if trunc && !decide (s = 0) then ps0.map (· / s) else ps0
+  let states := (mx.zip ps1).map fun (r, p) => if p = 0 then Vec.zero else vdiv r p
+  (states, ps1.map fun p => w * p)
+
+end kernels
+
+/-! ## the dispatch at the executed scalar type -/
+
+inductive Err
+  | type          -- TypeError: unsupported type combination
+  | sys           -- ValueError: cannot compose different composite systems
+  | size          -- MProcess: len(hss) != prod(shape)
+  | nanDist       -- truncate_and_normalize divided by a zero sum (nan) -> constructor rejects
+  | empty         -- ensemble without states (UnboundLocalError)
+  | dist (e : QM.C16.Err)
+deriving Repr, DecidableEq
+
+def Err.toString : Err → String
+  | .type => "type" | .sys => "sys" | .size => "size" | .nanDist => "nanDist" | .empty => "empty"
+  | .dist e => e.toString
+
+abbrev Dist := QM.C16.Dist
+
+/-- the library's objects; `sys` identifies the composite system -/
+inductive QOp (n : Nat)
+  | state (sys : Nat) (v : Vec Rat n)
+  | gate (sys : Nat) (hs : Mat Rat n n)
+  | povm (sys : Nat) (nums : List Nat) (vecs : List (Vec Rat n))
+  | mprocess (sys : Nat) (shape : List Nat) (eps : Rat) (hss : List (Mat Rat n n))
+  | ensemble (sys : Nat) (states : List (Vec Rat n)) (d : Dist) (eps : Rat)
+  | dist (d : Dist)
+
+structure Cfg where
+  sd : Rat      -- np.sqrt(dim)
+  atol : Rat    -- Settings.get_atol()
+
+/-- default `eps_zero` of MultinomialDistribution / StateEnsemble (1e-8) -/
+def eps8 : Rat := QM.C16.epsValidate
+
+def liftDist {α : Type} (r : Except QM.C16.Err α) : Except Err α :=
+  match r with
+  | .ok a => .ok a
+  | .error e => .error (.dist e)
+
+/-- `MProcess.__init__` size validation -/
+def mkMProcess {n : Nat} (sys : Nat) (shape : List Nat) (eps : Rat) (hss : List (Mat Rat n n)) :
+    Except Err (QOp n) :=
+  if hss.length ≠ QM.C16.prod shape then .error .size else .ok (.mprocess sys shape eps hss)
+
+/-- (Povm, State) branch: Born probabilities, `truncate_and_normalize`, distribution constructor -/
+def povmState {n : Nat} (c : Cfg) (vecs : List (Vec Rat n)) (rho : Vec Rat n) : Except Err Dist :=
+  match truncNorm c.atol (bornRaw vecs rho) with
+  | none => .error .nanDist
+  | some ps => liftDist (QM.C16.ctor ps [ps.length] eps8)
+
+/-- `_compose_qoperations_MProcess_State` (mode_sampling = False) -/
+def mpState {n : Nat} [NeZero n] (c : Cfg) (sys : Nat) (shape : List Nat) (eps : Rat)
+    (hss : List (Mat Rat n n)) (rho : Vec Rat n) : Except Err (QOp n) := do
+  let (states, ps) := forStates c.sd eps hss rho 1
+  let d ← liftDist (QM.C16.ctor ps shape eps8)
+  if states.length ≠ d.ps.length then throw .size
+  return .ensemble sys states d eps
+
+/-- `_compose_qoperations_MProcess_StateEnsemble` (mode_sampling = False) -/
+def mpEnsemble {n : Nat} [NeZero n] (c : Cfg) (sys : Nat) (shape : List Nat) (eps : Rat)
+    (hss : List (Mat Rat n n)) (states : List (Vec Rat n)) (d : Dist) (epsE : Rat) :
+    Except Err (QOp n) := do
+  let newShape := d.shape ++ shape
+  -- zero distribution: `elem2.states[0].generate_zero_obj()` (IndexError without states)
+  if d.isZero && states.isEmpty then throw .empty
+  let (sts, ps) :=
+    if d.isZero then
+      let len := QM.C16.prod newShape
+      (List.replicate len (Vec.zero : Vec Rat n), List.replicate len (0 : Rat))
+    else
+      let rs := (states.zip d.ps).map fun (s, p) => forStates c.sd eps hss s p
+      (rs.flatMap (·.1), rs.flatMap (·.2))
+  let d' ← liftDist (QM.C16.ctor ps newShape eps8)
+  if sts.length ≠ d'.ps.length then throw .size
+  return .ensemble sys sts d' (if eps ≤ epsE then epsE else eps)
+
+/-- `_compose_qoperations_Povm_StateEnsemble` -/
+def povmEnsemble {n : Nat} (c : Cfg) (psys : Nat) (nums : List Nat) (vecs : List (Vec Rat n))
+    (esys : Nat) (states : List (Vec Rat n)) (d : Dist) (epsE : Rat) : Except Err Dist := do
+  if states.isEmpty then throw .empty
+  let blocks ← (states.zip d.ps).mapM fun (s, p) =>
+    if p < epsE then pure (List.replicate vecs.length (0 : Rat))
+    else do
+      -- compose_qoperations(povm, state): composite systems are compared here
+      if psys ≠ esys then throw Err.sys
+      let pd ← povmState c vecs s
+      pure (pd.ps.map fun x => p * x)
+  liftDist (QM.C16.ctor blocks.flatten (d.shape ++ nums) eps8)
+
+/-- the composite system of a non-ensemble object -/
+def sysOf {n : Nat} : QOp n → Option Nat
+  | .state s _ => some s | .gate s _ => some s | .povm s _ _ => some s | .mprocess s _ _ _ => some s
+  | .ensemble .. => none | .dist _ => none
+
+/-- `_compose_qoperations(elem1, elem2)` -/
+def compose {n : Nat} [NeZero n] (c : Cfg) : QOp n → QOp n → Except Err (QOp n)
+  -- the composite-system check is skipped when either operand is a StateEnsemble;
+  -- a MultinomialDistribution has no composite_system (AttributeError) -> type error class
+  | .gate s1 a, .gate s2 b => if s1 ≠ s2 then .error .sys else .ok (.gate s1 (a.mul b))
+  | .gate s1 a, .mprocess s2 shape _ hss =>
+      if s1 ≠ s2 then .error .sys else mkMProcess s1 shape eps8 (hss.map fun hs => a.mul hs)
+  | .mprocess s1 shape _ hss, .gate s2 b =>
+      if s1 ≠ s2 then .error .sys else mkMProcess s1 shape eps8 (hss.map fun hs => hs.mul b)
+  | .mprocess s1 sh1 _ hss1, .mprocess s2 sh2 _ hss2 =>
+      if s1 ≠ s2 then .error .sys else mkMProcess s1 (sh1 ++ sh2) eps8 (mpMp hss1 hss2)
+  | .gate s1 a, .state s2 v => if s1 ≠ s2 then .error .sys else .ok (.state s1 (a.mulVec v))
+  | .gate s1 a, .ensemble s2 states d _ =>
+      -- per state: compose_qoperations(gate, state) (system check there); eps_zero falls back to 1e-8
+      if s1 ≠ s2 ∧ ¬ states.isEmpty then .error .sys
+      else .ok (.ensemble s2 (states.map fun v => a.mulVec v) d eps8)
+  | .mprocess s1 shape eps hss, .state s2 v =>
+      if s1 ≠ s2 then .error .sys else mpState c s1 shape eps hss v
+  | .mprocess _ shape eps hss, .ensemble s2 states d epsE => mpEnsemble c s2 shape eps hss states d epsE
+  | .povm s1 _ vecs, .gate s2 b =>
+      if s1 ≠ s2 then .error .sys else .ok (.povm s1 [vecs.length] (povmGate vecs b))
+  | .povm s1 _ vecs, .mprocess s2 _ _ hss =>
+      if s1 ≠ s2 then .error .sys
+      else .ok (.povm s1 [(povmMProcess vecs hss).length] (povmMProcess vecs hss))
+  | .povm s1 _ vecs, .state s2 v =>
+      if s1 ≠ s2 then .error .sys else (povmState c vecs v).map .dist
+  | .povm s1 nums vecs, .ensemble s2 states d epsE =>
+      (povmEnsemble c s1 nums vecs s2 states d epsE).map .dist
+  | a, b =>
+      -- the composite-system comparison precedes the type dispatch (skipped for ensembles)
+      match sysOf a, sysOf b with
+      | some s1, some s2 => if s1 ≠ s2 then .error .sys else .error .type
+      | _, _ => .error .type
+
+/-- `compose_qoperations(*elements)`: right-to-left fold (`none` = fewer than two elements). -/
+def composeChain {n : Nat} [NeZero n] (c : Cfg) (l : List (QOp n)) : Option (Except Err (QOp n)) :=
+  match l.reverse with
+  | [] => none
+  | [_] => none
+  | last :: rest => some (rest.foldl (fun acc e => acc.bind fun t => compose c e t) (.ok last))
+
+/-- a bracketing of a chain -/
+inductive Tree (n : Nat)
+  | leaf (x : QOp n)
+  | node (l r : Tree n)
+
+def Tree.eval {n : Nat} [NeZero n] (c : Cfg) : Tree n → Except Err (QOp n)
+  | .leaf x => .ok x
+  | .node l r => do
+      let a ← l.eval c
+      let b ← r.eval c
+      compose c a b
+
+def Tree.leaves {n : Nat} : Tree n → List (QOp n)
+  | .leaf x => [x]
+  | .node l r => l.leaves ++ r.leaves
+
+/-! ## driver -/
+
+def toVec? {α : Type} (l : List α) (n : Nat) : Option (Vector α n) :=
+  if h : l.length = n then some ⟨l.toArray, by simp [h]⟩ else none
+
+def chunks {α : Type} (k : Nat) : Nat → List α → List (List α)
+  | 0, _ => []
+  | m + 1, l => l.take k :: chunks k m (l.drop k)
+
+def toVecs? {α : Type} (l : List α) (m n : Nat) : Option (List (Vector α n)) :=
+  if l.length ≠ m * n then none else (chunks n m l).mapM fun c => toVec? c n
+
+def toMat? {α : Type} (l : List α) (m n : Nat) : Option (Vector (Vector α n) m) := do
+  let rows ← toVecs? l m n
+  toVec? rows m
+
+def toMats? {α : Type} (l : List α) (m n : Nat) : Option (List (Mat α n n)) :=
+  if l.length ≠ m * (n * n) then none else (chunks (n * n) m l).mapM fun c => toMat? c n n
+
+def showVec {n : Nat} (v : Vec Rat n) : String := showList showRat v.toList
+def showVecs {n : Nat} (l : List (Vec Rat n)) : String := showList showRat (l.flatMap (·.toList))
+def showMat {n : Nat} (A : Mat Rat n n) : String := showList showRat (A.toList.flatMap (·.toList))
+def showMats {n : Nat} (l : List (Mat Rat n n)) : String :=
+  showList showRat (l.flatMap fun A => A.toList.flatMap (·.toList))
+
+def parseBool? (s : String) : Option Bool :=
+  if s = "true" then some true else if s = "false" then some false else none
+
+/-- one object per token, fields separated by `;` -/
+def parseObj? (n : Nat) (s : String) : Option (QOp n) :=
+  match s.splitOn ";" with
+  | ["S", sys, v] => do
+      let v ← toVec? (← parseList? parseRat? v) n
+      some (.state (← parseNat? sys) v)
+  | ["G", sys, hs] => do
+      let hs ← toMat? (← parseList? parseRat? hs) n n
+      some (.gate (← parseNat? sys) hs)
+  | ["P", sys, nums, m, vs] => do
+      let vs ← toVecs? (← parseList? parseRat? vs) (← parseNat? m) n
+      some (.povm (← parseNat? sys) (← parseList? parseNat? nums) vs)
+  | ["M", sys, shape, eps, m, hss] => do
+      let hss ← toMats? (← parseList? parseRat? hss) (← parseNat? m) n
+      some (.mprocess (← parseNat? sys) (← parseList? parseNat? shape) (← parseRat? eps) hss)
+  | ["E", sys, shape, eps, ps, isZero, m, sts] => do
+      let sts ← toVecs? (← parseList? parseRat? sts) (← parseNat? m) n
+      let d : Dist := { ps := ← parseList? parseRat? ps, shape := ← parseList? parseNat? shape,
+                        isZero := ← parseBool? isZero }
+      some (.ensemble (← parseNat? sys) sts d (← parseRat? eps))
+  | _ => none
+
+def showDist (d : Dist) : String :=
+  s!"{showList toString d.shape} {d.isZero} {showList showRat d.ps}"
+
+def showObj {n : Nat} : QOp n → String
+  | .state sys v => s!"S {sys} {showVec v}"
+  | .gate sys hs => s!"G {sys} {showMat hs}"
+  | .povm sys nums vecs => s!"P {sys} {showList toString nums} {vecs.length} {showVecs vecs}"
+  | .mprocess sys shape eps hss =>
+      s!"M {sys} {showList toString shape} {showRat eps} {hss.length} {showMats hss}"
+  | .ensemble sys sts d eps => s!"E {sys} {showRat eps} {showDist d} {sts.length} {showVecs sts}"
+  | .dist d => s!"D {showDist d}"
+
+def showRes {n : Nat} (r : Except Err (QOp n)) : String :=
+  match r with
+  | .ok x => "ok " ++ showObj x
+  | .error e => "err " ++ e.toString
+
+/-- reverse-polish bracketing: a number pushes that object, `o` pops `b` then `a` and pushes `a∘b` -/
+def rpn {n : Nat} [NeZero n] (c : Cfg) (objs : Array (QOp n)) :
+    List String → List (Except Err (QOp n)) → Option (Except Err (QOp n))
+  | [], [r] => some r
+  | [], _ => none
+  | "o" :: ts, b :: a :: st =>
+      rpn c objs ts ((do let x ← a; let y ← b; compose c x y) :: st)
+  | "o" :: _, _ => none
+  | t :: ts, st => do
+      let i ← parseNat? t
+      let x ← objs[i]?
+      rpn c objs ts (.ok x :: st)
+
+def handleAt (n : Nat) [NeZero n] (c : Cfg) (args : List String) : Option String :=
+  match args with
+  | "tree" :: k :: rest => do
+      let k ← parseNat? k
+      if rest.length < k then none
+      let objs ← (rest.take k).mapM (parseObj? n)
+      let r ← rpn c objs.toArray (rest.drop k) []
+      some (showRes r)
+  | "chain" :: objs => do
+      let objs ← objs.mapM (parseObj? n)
+      match composeChain c objs with
+      | none => some "err tooFew"
+      | some r => some (showRes r)
+  | ["topovm", m, hss] => do
+      let hss ← toMats? (← parseList? parseRat? hss) (← parseNat? m) n
+      some s!"ok {showVecs (toPovm c.sd hss)}"
+  | ["gen2", m, st, vs] => do
+      let st ← toVec? (← parseList? parseRat? st) n
+      let vs ← toVecs? (← parseList? parseRat? vs) (← parseNat? m) n
+      some s!"ok {showMats (genMode2 st vs)}"
+  | ["gen2list", m, sts, vs] => do
+      let m ← parseNat? m
+      let sts ← toVecs? (← parseList? parseRat? sts) m n
+      let vs ← toVecs? (← parseList? parseRat? vs) m n
+      some s!"ok {showMats (genMode2List sts vs)}"
+  | ["truncnorm", eps, ps] => do
+      match truncNorm (← parseRat? eps) (← parseList? parseRat? ps) with
+      | none => some "err nanDist"
+      | some l => some s!"ok {showList showRat l}"
+  | _ => none
+
+/-- `<n> <sd> <atol> op args…` -/
+def handle (args : List String) : Option String :=
+  match args with
+  | n :: sd :: atol :: rest => do
+      let n ← parseNat? n
+      let c : Cfg := { sd := ← parseRat? sd, atol := ← parseRat? atol }
+      match n with
+      | 0 => none
+      | k + 1 => handleAt (k + 1) c rest
+  | _ => none
+
 end QM.C06
